@@ -34,9 +34,26 @@ fn lock(r: &Shared) -> std::sync::MutexGuard<'_, Rec> {
 static HOOK: Once = Once::new();
 
 /// Silence the default panic printer: panics are outcomes here, reported through the History.
+thread_local! {
+    static GUARD_DEPTH: std::cell::Cell<u32> = const { std::cell::Cell::new(0) };
+}
+
+/// Run `f` with panics treated as outcomes of the system under test (not printed).
+pub fn guarded<T>(f: impl FnOnce() -> T) -> std::thread::Result<T> {
+    GUARD_DEPTH.with(|d| d.set(d.get() + 1));
+    let r = catch_unwind(AssertUnwindSafe(f));
+    GUARD_DEPTH.with(|d| d.set(d.get() - 1));
+    r
+}
+
 pub fn install_quiet_panic_hook() {
     HOOK.call_once(|| {
-        std::panic::set_hook(Box::new(|_| {}));
+        std::panic::set_hook(Box::new(|info| {
+            // panics inside the system under test are outcomes; harness panics must be loud
+            if GUARD_DEPTH.with(std::cell::Cell::get) == 0 {
+                eprintln!("HARNESS-PANIC: {info}");
+            }
+        }));
     });
 }
 
@@ -619,7 +636,7 @@ fn drive<O: OutputSink, H: HandlerTypes>(
     let mut written = 0usize;
     for (i, &(a, b)) in writes.iter().enumerate() {
         lock(rec).evs.push(Ev::Write(b - a));
-        let r = catch_unwind(AssertUnwindSafe(|| rw.write(&sc.doc[a..b])));
+        let r = guarded((|| rw.write(&sc.doc[a..b])));
         match r {
             Ok(Ok(())) => {
                 written += b - a;
@@ -636,7 +653,7 @@ fn drive<O: OutputSink, H: HandlerTypes>(
                 // misuse: further calls must panic and must not reach the sink
                 let before = lock(rec).sink_calls;
                 for _ in 0..sc.misuse_calls {
-                    let r2 = catch_unwind(AssertUnwindSafe(|| rw.write(b"<x>y")));
+                    let r2 = guarded((|| rw.write(b"<x>y")));
                     match r2 {
                         Err(p) => d.misuse_panics.push(panic_msg(p)),
                         Ok(_) => d.misuse_panics.push("<returned normally>".into()),
@@ -644,7 +661,7 @@ fn drive<O: OutputSink, H: HandlerTypes>(
                 }
                 d.misuse_sink_calls = lock(rec).sink_calls - before;
                 // dropping a poisoned rewriter must be fine
-                let _ = catch_unwind(AssertUnwindSafe(move || drop(rw)));
+                let _ = guarded((move || drop(rw)));
                 return d;
             }
             Err(p) => {
@@ -658,7 +675,7 @@ fn drive<O: OutputSink, H: HandlerTypes>(
     }
     match sc.finish {
         Finish::Drop => {
-            let r = catch_unwind(AssertUnwindSafe(move || drop(rw)));
+            let r = guarded((move || drop(rw)));
             match r {
                 Ok(()) => {
                     lock(rec).evs.push(Ev::Dropped);
@@ -673,7 +690,7 @@ fn drive<O: OutputSink, H: HandlerTypes>(
         }
         Finish::End => {
             lock(rec).evs.push(Ev::End);
-            let r = catch_unwind(AssertUnwindSafe(move || rw.end()));
+            let r = guarded((move || rw.end()));
             match r {
                 Ok(Ok(())) => lock(rec).evs.push(Ev::EndOk),
                 Ok(Err(e)) => {
@@ -714,7 +731,7 @@ pub fn run_opts(sc: &Scenario, opts: &RunOpts) -> Result<History, String> {
     let d: Result<DriveOut, String> = (|| {
         if sc.send {
             let settings = build_settings!(Settings::new_send(), sc, &rec, lol_html::send::SendHandlerTypes);
-            let made = catch_unwind(AssertUnwindSafe(|| {
+            let made = guarded((|| {
                 if sc.closure_sink {
                     let r2 = rec.clone();
                     let sink = move |c: &[u8]| {
@@ -731,7 +748,7 @@ pub fn run_opts(sc: &Scenario, opts: &RunOpts) -> Result<History, String> {
             Ok(made.unwrap_or_else(ctor_panic))
         } else {
             let settings = build_settings!(Settings::new(), sc, &rec, lol_html::LocalHandlerTypes);
-            let made = catch_unwind(AssertUnwindSafe(|| {
+            let made = guarded((|| {
                 if sc.closure_sink {
                     let r2 = rec.clone();
                     let sink = move |c: &[u8]| {
@@ -801,7 +818,7 @@ pub fn run_rewrite_str(sc: &Scenario) -> Result<Result<Result<String, ErrKind>, 
         sink_calls: 0,
     }));
     let settings = build_settings!(Settings::new(), sc, &rec, lol_html::LocalHandlerTypes);
-    let r = catch_unwind(AssertUnwindSafe(|| lol_html::rewrite_str(text, settings)));
+    let r = guarded((|| lol_html::rewrite_str(text, settings)));
     Ok(match r {
         Ok(Ok(s)) => Ok(Ok(s)),
         Ok(Err(e)) => Ok(Err(err_kind(&e))),
